@@ -9,6 +9,7 @@ import (
 	"net/http"
 	"regexp"
 	"runtime/debug"
+	"strconv"
 
 	"github.com/tdewolff/minify/v2"
 	"github.com/tdewolff/minify/v2/css"
@@ -69,6 +70,7 @@ func NewRegistry(o *Options) *minify.M {
 	m.AddRegexp(xmlRe, o.XML)
 	m.AddFunc(MTStream, streamStub)
 	m.AddFunc(MTFail, failStub)
+	m.AddFunc(MTFailEarly, failEarlyStub)
 	m.AddFunc(MTEarly, earlyStub)
 	m.AddFunc(MTWrap, wrapStub)
 	// external commands (this test binary as a helper, see HelperMain): nothing is spawned
@@ -86,10 +88,11 @@ func NewRegistry(o *Options) *minify.M {
 // which is what makes the pipe interleavings of the wrappers non-trivial. failStub writes
 // half of its output and then fails.
 const (
-	MTStream = "text/x-stream"
-	MTFail   = "text/x-fail"
-	MTEarly  = "text/x-early"
-	MTWrap   = "text/x-wrap" // output even for empty input: shows whether the minifier ran at all
+	MTStream    = "text/x-stream"
+	MTFail      = "text/x-fail"
+	MTFailEarly = "text/x-failearly"
+	MTEarly     = "text/x-early"
+	MTWrap      = "text/x-wrap" // output even for empty input: shows whether the minifier ran at all
 	// served by external commands: stdin→stdout, $in→stdout, stdin→$out, $in→$out
 	MTCmd     = "text/x-cmd"
 	MTCmdIn   = "text/x-cmd-in"
@@ -146,6 +149,17 @@ func earlyStub(_ *minify.M, w io.Writer, r io.Reader, _ map[string]string) error
 	}
 	_, err = w.Write(asciiUpper(buf[:n]))
 	return err
+}
+
+// failEarlyStub fails after the first byte of its input, while a producer is still writing
+// the rest (a streaming filter that rejects its input at the header): no output, always the
+// same error, whatever the chunking.
+func failEarlyStub(_ *minify.M, _ io.Writer, r io.Reader, _ map[string]string) error {
+	var one [1]byte
+	if _, err := io.ReadFull(r, one[:]); err != nil && err != io.EOF && err != io.ErrUnexpectedEOF {
+		return err
+	}
+	return ErrStubFailed
 }
 
 // wrapStub brackets its (upper-cased) input: unlike the six real minifiers it produces
@@ -210,7 +224,10 @@ type Op struct {
 	ReqHeader     http.Header // request headers (what the client sent must not change what the handler's response becomes)
 	RespHeader    http.Header // further response headers the handler sets before it writes (Content-Encoding: identity, Vary, ETag)
 	CtxCancelled  bool        // the request's context is already cancelled (a timeout middleware in front)
-	Nested        bool        // EMiddleware / EMiddleErr: the middleware is applied twice (router and route)
+	// LateHeader: the handler writes its first chunk, then sets Content-Length and calls
+	// WriteHeader (a page head written by hand followed by http.ServeContent)
+	LateHeader bool
+	Nested     bool // EMiddleware / EMiddleErr: the middleware is applied twice (router and route)
 	// SharedHandler: one handler value, built once, serves the requests of several tasks (as in
 	// a real server); its inner handler finds the op by the request URI and plays op.handle.
 	SharedHandler http.Handler
@@ -510,6 +527,10 @@ func (op *Op) produce(y *sim.Point, w io.Writer) {
 		if k != n {
 			op.WriteErrs = append(op.WriteErrs, fmt.Errorf("harness: short write %d of %d without error", k, n))
 			return
+		}
+		if rw, ok := w.(http.ResponseWriter); ok && op.LateHeader && i == 0 {
+			rw.Header().Set("Content-Length", strconv.Itoa(len(op.In)))
+			rw.WriteHeader(http.StatusOK)
 		}
 		rest = rest[n:]
 		if i > 1<<20 {
